@@ -25,7 +25,8 @@ def main():
         print("patch does not apply: " + r.stderr); return 2
     env = dict(os.environ);
     if scratch:
-        env["WENCRY_REPO"] = target env["VERIF_EVIDENCE_DIR"] = os.path.join(V, "out", "seeded-evidence"); env.setdefault("VERIF_WALL", "40")
+        env["WENCRY_REPO"] = target
+    env["VERIF_EVIDENCE_DIR"] = os.path.join(V, "out", "seeded-evidence"); env.setdefault("VERIF_WALL", "40")
     results = {}
     try:
         for p in props:
